@@ -50,6 +50,7 @@ let parse_event (w : string list) : event =
   | ["probe"; p; wr; res] -> EProbe (path_of_string p, wr = "1", probe_of_string res)
   | ["read"; p; off; len; data] -> ERead (path_of_string p, n_of_string off, n_of_string len, (if data = "fail" then None else Some (bytes_of_hex data)))
   | ["mut"; "mkdir"; p; ok] -> EMut (MkdirAll (path_of_string p), ok = "1")
+  | ["mut"; "mkdirp"; p; made] -> EMkPartial (path_of_string p, path_of_string made)
   | ["mut"; "openw"; p; c; tr; ok] -> EMut (OpenW (path_of_string p, c = "1", tr = "1"), ok = "1")
   | ["mut"; "setlen"; p; n; ok] -> EMut (SetLen (path_of_string p, n_of_string n), ok = "1")
   | ["mut"; "write"; p; off; data; ok] -> EMut (WriteAt (path_of_string p, n_of_string off, bytes_of_hex data), ok = "1")
@@ -63,6 +64,7 @@ let show_event = function
   | EProbe (p, _, _) -> "probe " ^ show_path p
   | ERead (p, off, len, r) -> Printf.sprintf "read %s @%s+%s%s" (show_path p) (string_of_n off) (string_of_n len) (match r with None -> " (failed)" | Some _ -> "")
   | EMut (MkdirAll p, ok) -> Printf.sprintf "mkdir_all %s ok=%b" (show_path p) ok
+  | EMkPartial (p, made) -> Printf.sprintf "mkdir_all %s failed after creating up to %s" (show_path p) (show_path made)
   | EMut (OpenW (p, c, t), ok) -> Printf.sprintf "open-write %s create=%b truncate=%b ok=%b" (show_path p) c t ok
   | EMut (SetLen (p, n), ok) -> Printf.sprintf "set_len %s %s ok=%b" (show_path p) (string_of_n n) ok
   | EMut (WriteAt (p, off, d), ok) -> Printf.sprintf "write %s @%s %s ok=%b" (show_path p) (string_of_n off) (hex_of_bytes d) ok
@@ -77,6 +79,7 @@ let rec next_of (pg : prog) (evs : event list) : string =
   | Read (p, off, len, k), ERead (p', off', len', r) :: rest when read_matches p off len p' off' r -> next_of (k r) rest
   | Read (p, off, len, _), _ -> Printf.sprintf "read %s @%s+%s" (show_path p) (string_of_n off) (string_of_n len)
   | Mut (o, k), EMut (o', ok) :: rest when (if ok then op_eqb o o' else op_same_target o o') -> next_of (k ok) rest
+  | Mut (MkdirAll p, k), EMkPartial (p', _) :: rest when path_eqb p p' -> next_of (k false) rest
   | Mut (o, _), _ -> show_event (EMut (o, true))
 
 let sort_uniq_nodes (l : (path * fileid) list) = List.sort_uniq compare (List.map (fun (p, (d, i)) -> (string_of_path p, string_of_n d, string_of_n i)) l)
@@ -113,6 +116,7 @@ let validate (c : case) : string =
             if not ok then bad "the model file system refuses an operation that succeeded: %s" (show_event e);
             fs := f'
         | EMut (o, false) -> ()
+        | EMkPartial (p, made) -> let (f', ok) = apply_op !fs (MkdirAll made) in if ok then fs := f'
         | ERead (p, off, _, Some d) ->
             (match fs_file !fs p with
              | None -> bad "read of %s succeeded but the model file system has no such file" (show_path p)
